@@ -137,7 +137,7 @@ Fixpoint exec (cx : ctx) (s : st) (p : list instr) : st * option N :=
   | i :: p' =>
       match exec_op cx s (i_op i) with
       | (s', None) => exec cx s' p'
-      | (s', Some c) => (s', Some (if i_ovr i =? 0 then c else i_ovr i))
+      | (s', Some c) => (s', Some (if (i_ovr i =? 0) || (c =? cat_recursive) then c else i_ovr i))
       end
   end.
 
@@ -203,16 +203,17 @@ Section Retry.
 End Retry.
 
 (* ---------------------------------------------------------------- diagnostics *)
-Record err := mkErr { er_create : bool; er_unit : N; er_cat : N; er_removed : list ref }.
+Record err := mkErr { er_create : bool; er_unit : N; er_cat : N; er_removed : list ref; er_roots : list root }.
+(* er_roots: the roots of the ModelProperty that failed (not part of the diagnostic text; used by the guards) *)
 
 (* ---------------------------------------------------------------- _create_schemas *)
 Definition no_final (c : N) : bool := false.
 Definition create_todo (g : graph) : list node := filter (fun n => negb (n_isref n)) g.
 Definition ref_errs (g : graph) : list err :=
-  map (fun n => mkErr true (n_ref n) cat_reference_schema []) (filter n_isref g).
+  map (fun n => mkErr true (n_ref n) cat_reference_schema [] []) (filter n_isref g).
 Definition create_loop (g : graph) : rres st node := run_loop create_try no_final st0 (create_todo g).
 Definition create_errs (g : graph) : list err :=
-  ref_errs g ++ map (fun xc => mkErr true (n_ref (fst xc)) (snd xc) []) (r_retry (create_loop g)).
+  ref_errs g ++ map (fun xc => mkErr true (n_ref (fst xc)) (snd xc) [] []) (r_retry (create_loop g)).
 
 (* ---------------------------------------------------------------- _propogate_removal as a work list (depth first, deletes the
    reference before its dependants are visited, so every reference is expanded at most once) *)
@@ -244,7 +245,7 @@ Fixpoint model_errors (D : list (ref * root)) (mes : list (qitem * N)) (cbr : li
       match remove_roots D (e_roots (q_entry q)) cbr cbn with
       | (cbr1, cbn1, acc) =>
           match model_errors D rest cbr1 cbn1 with
-          | (cbr2, cbn2, es) => (cbr2, cbn2, mkErr false (q_name q) c acc :: es)
+          | (cbr2, cbn2, es) => (cbr2, cbn2, mkErr false (q_name q) c acc (e_roots (q_entry q)) :: es)
           end
       end
   end.
@@ -304,12 +305,61 @@ Definition node_edges (n : node) : list (ekind * ref * list root) :=
 (* an edge of node n is RECORDED when the roots it hands to add_dependencies name the node itself *)
 Definition recorded (n : node) (e : ekind * ref * list root) : bool := mem_root (RRef (n_ref n)) (snd e).
 
+Definition is_rref (r : root) : bool := match r with RRef _ => true | RCls _ => false end.
+
 (* g_no_union_edge_to_failing: every edge that is not recorded (the union_member rows of the table) points at a survivor,
-   and every entry whose roots do not name its node (an inline object inside a union) was processed *)
-Definition entry_rooted (n : node) (e : entry) : bool := mem_root (RRef (n_ref n)) (e_roots e).
+   and every ModelProperty that failed processing carried a reference among its roots (inline objects inside a union do not) *)
 Definition g_no_union_edge_to_failing (g : graph) : bool :=
   let r := build_schemas g in
-  forallb (fun n =>
-    forallb (fun e => recorded n e || has (res_cbr r) (snd (fst e))) (node_edges n)
-    && forallb (fun e => entry_rooted n e || negb (existsb (fun x => negb (er_create x) && (er_unit x =? e_name e)) (res_errs r)))
-               (n_entries n)) g.
+  forallb (fun n => forallb (fun e => recorded n e || has (res_cbr r) (snd (fst e))) (node_edges n)) g
+  && forallb (fun e => er_create e || existsb is_rref (er_roots e)) (res_errs r).
+
+(* ---------------------------------------------------------------- well-formedness of an abstracted graph (facts about the
+   abstraction function, evaluated on every abstracted graph by the harness): component names are distinct (a dict), every
+   entry is queued by the create instructions of its node with its own class name, the only reference among the roots a node
+   uses is the node itself *)
+Fixpoint nodup_n (l : list N) : bool := match l with [] => true | x :: t => negb (mem x t) && nodup_n t end.
+Definition pushes (p : list instr) (k : nat) (c : cls) : bool :=
+  existsb (fun i => match i_op i with OMintModel c' (Some k') => Nat.eqb k k' && (c' =? c) | _ => false end) p.
+Fixpoint entries_pushed (p : list instr) (k : nat) (es : list entry) : bool :=
+  match es with [] => true | e :: es' => pushes p k (e_cls e) && entries_pushed p (S k) es' end.
+Definition roots_self (r : ref) (rs : list root) : bool :=
+  forallb (fun x => match x with RRef r' => r' =? r | RCls _ => true end) rs.
+Definition op_self (r : ref) (o : op) : bool :=
+  match o with
+  | ONeed _ _ rs _ _ => roots_self r rs
+  | OAllOf _ rs _ => roots_self r rs
+  | ODep r' _ => r' =? r
+  | _ => true
+  end.
+Definition prog_self (r : ref) (p : list instr) : bool := forallb (fun i => op_self r (i_op i)) p.
+Definition wf_node (n : node) : bool :=
+  entries_pushed (n_create n) 0 (n_entries n) && prog_self (n_ref n) (n_create n)
+  && forallb (fun e => roots_self (n_ref n) (e_roots e) && prog_self (n_ref n) (e_prog e)) (n_entries n).
+Definition wf_graph (g : graph) : bool := nodup_n (map n_ref g) && forallb wf_node g.
+
+(* ---------------------------------------------------------------- g_no_name_pressure: the class names the instructions of
+   different components mention (mint, use as a root, record as a dependant) are disjoint *)
+Definition roots_cls (rs : list root) : list cls := flat_map (fun r => match r with RCls c => [c] | RRef _ => [] end) rs.
+Definition op_cls (o : op) : list cls :=
+  match o with
+  | OFail _ => []
+  | ONeed _ _ rs _ _ => roots_cls rs
+  | OAllOf _ rs _ => roots_cls rs
+  | ODep _ c => [c]
+  | OMintModel c _ => [c]
+  | OMintEnum c _ => [c]
+  end.
+Definition prog_cls (p : list instr) : list cls := flat_map (fun i => op_cls (i_op i)) p.
+Definition entry_cls (e : entry) : list cls := e_cls e :: roots_cls (e_roots e) ++ prog_cls (e_prog e).
+Definition node_cls (n : node) : list cls := prog_cls (n_create n) ++ flat_map entry_cls (n_entries n).
+Fixpoint disjoint_all (ls : list (list N)) : bool :=
+  match ls with
+  | [] => true
+  | l :: t => forallb (fun l' => forallb (fun x => negb (mem x l')) l) t && disjoint_all t
+  end.
+Definition g_no_name_pressure (g : graph) : bool := disjoint_all (map node_cls g).
+
+Definition op_mints (o : op) : list cls := match o with OMintModel c _ => [c] | OMintEnum c _ => [c] | _ => [] end.
+Definition prog_mints (p : list instr) : list cls := flat_map (fun i => op_mints (i_op i)) p.
+Definition node_mints (n : node) : list cls := prog_mints (n_create n) ++ flat_map (fun e => prog_mints (e_prog e)) (n_entries n).
